@@ -52,12 +52,41 @@ def marks_lists(marked, nlev):
     return out
 
 
-def replay_history(cfg, hist, containers=('set',), truncate=False, bdspecs=None, truncflag=False, integer_grid=False):
-    """Returns (hs, events, error).  events: list of dict(pre, post, marks_in, marks_out)."""
+def probe(hs):
+    """Read-only queries of an HSpace (an adaptive loop solves, then marks, then refines): they populate every
+    cached table of the object.  By contract none of them may change any later answer; the replay drivers call this
+    between refine() calls and before transfers, and compare with the model exactly as without the probing."""
+    qs = [lambda: hs.numdofs, lambda: hs.ravel_global, hs.active_indices, hs.deactivated_indices,
+          hs.global_indices, lambda: hs.represent_fine(truncate=True), lambda: hs.represent_fine(truncate=False),
+          lambda: hs.virtual_hierarchy_prolongators(truncate=False), hs.incidence_matrix,
+          hs.dirichlet_dofs, hs.non_dirichlet_dofs,
+          lambda: [hs.indices_to_smooth(s) for s in ('new', 'trunc', 'func_supp', 'cell_supp')],
+          lambda: hs.cell_dirichlet, lambda: hs.cell_global, lambda: hs.thb_to_hb(), lambda: hs.hb_to_thb()]
+    if hs.dim >= 2:
+        qs += [lambda: hs.boundary((0, 0)), lambda: hs.boundary((hs.dim - 1, 1))]
+    n = 0
+    for q in qs:
+        try:
+            q()
+            n += 1
+        except Exception:
+            pass            # what a query returns (or raises) is decided where the driver checks that query
+    return n
+
+
+def replay_history(cfg, hist, containers=('set',), truncate=False, bdspecs=None, truncflag=False, integer_grid=False,
+                   probes=False, via_copy=False):
+    """probes: run the read-only queries before every refine() call; via_copy: refine a copy() of the probed object
+    (the prolongate_to idiom: fine = coarse.copy(); fine.refine(...)).
+    Returns (hs, events, error).  events: list of dict(pre, post, marks_in, marks_out)."""
     hs = make_space(cfg, truncate=truncate, bdspecs=bdspecs, integer_grid=integer_grid)
     events = []
     for n, call in enumerate(hist):
         how = containers[n % len(containers)]
+        if probes:
+            probe(hs)
+            if via_copy:
+                hs = hs.copy()
         marks = render_marks(call, how, hs)
         pre = project(hs)
         try:
